@@ -47,7 +47,7 @@ func verifC23RandomRun(res *verifkit.Result, rnd *rand.Rand, run int, allowReset
 	for i := 0; i < nsteps; i++ {
 		cfg.Steps = append(cfg.Steps, verifC23Steps[rnd.Intn(len(verifC23Steps))])
 	}
-	cfg.NKeys = 1 + rnd.Intn(3)
+	cfg.NKeys = 1 + rnd.Intn(5)
 	cfg.Workers = 2 + rnd.Intn(7)
 	cfg.Ops = 4 + rnd.Intn(14)
 	cfg.Limits = []string{"none", "none", "size", "age", "both"}[rnd.Intn(5)]
@@ -66,7 +66,7 @@ func verifC23RandomRun(res *verifkit.Result, rnd *rand.Rand, run int, allowReset
 	case "limits":
 		cfg.Inflight, cfg.Limits = false, []string{"size", "age", "both"}[rnd.Intn(3)]
 	}
-	keys := []string{"a", "b", "c"}[:cfg.NKeys]
+	keys := []string{"a", "b", "c", "d", "e"}[:cfg.NKeys]
 	tr.Emit("Reset", "run", run, "cfg", cfg)
 	e := verifC23NewEnv(tr, res, cfg.ChunkSize, cfg.Offset, keys)
 	e.inflight = cfg.Inflight
@@ -180,6 +180,27 @@ func verifC23RandomRun(res *verifkit.Result, rnd *rand.Rand, run int, allowReset
 					r2.yields = wr.Intn(3)
 					e.get(r2)
 					res.Seen(e.class(r2))
+				case x < 83: // shard chase: a bucket is dropped (as trim does) while invalidate is between two buckets
+					e.mu.Lock()
+					var fin []*verifC23Req
+					for _, r := range e.all {
+						select {
+						case <-r.done:
+							if r.err == nil && r.lod.StepSec == g.step {
+								fin = append(fin, r)
+							}
+						default:
+						}
+					}
+					e.mu.Unlock()
+					if len(fin) == 0 {
+						continue
+					}
+					r0 := fin[wr.Intn(len(fin))]
+					verifC23ShardChase(e, wr, r0)
+					r2 := e.newReq(r0.key, 0, false, r0.lod.StepSec, r0.lod.FromSec, r0.lod.ToSec)
+					e.get(r2)
+					res.Seen(e.class(r2))
 				case x < 90: // invalidate
 					nt := 1 + wr.Intn(3)
 					times := make([]int64, 0, nt)
@@ -238,6 +259,62 @@ func verifC23RandomRun(res *verifkit.Result, rnd *rand.Rand, run int, allowReset
 	res.Steps += cfg.Workers * cfg.Ops
 	res.Sample(cfg)
 	return events
+}
+
+// verifC23ShardChase invalidates a slot of the finished request r0 with the invalidate call parked
+// at a random bucket of the shard (its mutex is held meanwhile), removes the bucket the shard's
+// invalidate cursor points to - the calls reduceMemoryUsage makes - and lets the call finish.
+// While a bucket mutex is held the shard mutex is only tried, never waited for (a request
+// creating its loader holds the shard mutex while it waits for its bucket).
+func verifC23ShardChase(e *verifC23Env, wr *rand.Rand, r0 *verifC23Req) {
+	shard := e.c.shards[time.Duration(r0.lod.StepSec)*time.Second]
+	shard.mu.Lock()
+	var list []*cache2Bucket
+	for b := shard.bucketL.next(shard.bucketL.head); b != nil; b = shard.bucketL.next(b) {
+		list = append(list, b)
+	}
+	shard.mu.Unlock()
+	if len(list) < 3 {
+		return
+	}
+	hold := list[wr.Intn(len(list)-1)]
+	n := (r0.lod.ToSec - r0.lod.FromSec) / r0.lod.StepSec
+	times := []int64{r0.lod.FromSec + wr.Int63n(n)*r0.lod.StepSec}
+	e.invMu.Lock()
+	defer e.invMu.Unlock()
+	hold.mu.Lock()
+	done := make(chan struct{})
+	go func() {
+		defer close(done)
+		e.invalidateLocked(times, r0.lod.StepSec)
+	}()
+	var target *cache2Bucket
+	var info cache2UpdateInfo
+	removed := false
+	for i := 0; i < 2000 && !removed; i++ {
+		select {
+		case <-done:
+			i = 2000
+			continue
+		default:
+		}
+		if shard.mu.TryLock() {
+			if next := shard.bucketL.next(hold); next != nil && shard.invalidateIter == next && hold.key != "" {
+				// the call is parked at `hold`; drop the bucket it would visit next
+				target = next
+				e.tr.Emit("Note", "what", "removeBucket during invalidate", "key", target.key)
+				shard.removeBucketUnlocked(target, &info)
+				removed = true
+			}
+			shard.mu.Unlock()
+		}
+		runtime.Gosched()
+	}
+	hold.mu.Unlock()
+	<-done
+	if removed {
+		e.c.updateRuntimeInfo(shard.stepS, target.fau, &info)
+	}
 }
 
 func TestVerifC23Random(t *testing.T) {
